@@ -769,6 +769,13 @@ def check_view(run, exe, model, cases, scratch, fixflags="1 1"):
             mir = d["mirrors"].get("w1")
             Dp = Dp_at[k]
             cont = None
+            # the known hole (exchange inside a peer's state-file rewrite) is recognised by the faithful model
+            # predicting exactly what the implementation holds; anything else in such a case is a new defect
+            mq0 = mres[qat[k]] if (mres is not None and qat.get(k) is not None and qat[k] < len(mres)) else None
+            known_hole = False
+            if inside_at[k] and mir is not None and mq0 is not None and mq0.get("mirror") is not None:
+                c0, ok0 = scen.content(mir, mir.get("grid"), NB)
+                known_hole = ok0 and c0 == counts_of(mq0["mirror"]["cont"], NB)
             if mir is None and shared_at.get(k) and rec.get("files_ok", True) and rec["p_state_step"] is not None and c["robust"]:
                 run.violation("view:peer-ignored", "after its exchange in event %d the reader has no mirror of its peer although the registry, the list file "
                               "and the state file are complete" % k, {"kind": "view", "case": c, "event": k})
@@ -781,7 +788,7 @@ def check_view(run, exe, model, cases, scratch, fixflags="1 1"):
                 kpre = prefix_len(cont, Dp, NB)
                 if kpre is None:
                     run.violation("view:mirror-not-a-prefix" + (":robust" if c["robust"] else "") +
-                                  (":exchange-inside-state-rewrite" if inside_at[k] else ""),
+                                  (":exchange-inside-state-rewrite" if known_hole else ""),
                                   "after event %d %s the reader holds for its peer hills in bins %s; the peer deposited, in order, %s; the reader saw "
                                   "the first %d bytes of the peer's hills file (records of %s bytes)" % (k, rec["ev"], show(cont), [b for (_, b) in Dp],
                                   rec["view_hills_bytes"], reclen), {"kind": "view", "case": c, "event": k})
@@ -791,7 +798,7 @@ def check_view(run, exe, model, cases, scratch, fixflags="1 1"):
                     n_state = sum(1 for (it, _) in Dp if it <= S)
                     n_file = 0 if rec.get("mid") else (rec["view_hills_bytes"] + 1) // reclen
                     if kpre < n_state + n_file:
-                        run.violation("view:visible-hills-missing" + (":exchange-inside-state-rewrite" if inside_at[k] else ""), "after its exchange in event %d the reader holds %d hills of its peer (bins %s) although the "
+                        run.violation("view:visible-hills-missing" + (":exchange-inside-state-rewrite" if known_hole else ""), "after its exchange in event %d the reader holds %d hills of its peer (bins %s) although the "
                                       "state file (step %d, %d hills) and %d complete records (%d bytes) were visible" %
                                       (k, kpre, show(cont), S, n_state, n_file, rec["view_hills_bytes"]), {"kind": "view", "case": c, "event": k})
                         break
